@@ -23,7 +23,7 @@ MANIFEST = {
              "names = names of `list`); `anything_ran_redundant`; `both_exit_nonzero_iff_failed` (module with >=1 doctest, no escape, no "
              "pytest-only pattern: both exit != 0 iff a not-force-disabled doctest failed; uses C10.exit_nonzero_iff_failed); "
              "`option_parsers_agree`; witness `pytest_skip_pattern_disables_pytest_only` = K-C15-a. Observed: the same generated modules "
-             "through `pytest --xdoctest-modules -rA -v` subprocesses (batches and single modules; node ids and outcomes from the junit "
+             "through `pytest --xdoctest-modules -rA -v <directory>` subprocesses (pytest discovers the batch directory: naming the files would make pytest's own python plugin import them; batches and single modules; node ids and outcomes from the junit "
              "xml, cross-checked with the -v and -rA lines), through runner.doctest_module / __main__.main / `python -m xdoctest`, x style "
              "{google, freeform, auto} x 8 option sets passed as --options and --xdoctest-options/--xdoc-options: node ids, per-doctest "
              "outcomes, TRACE of executed doctests, exit codes; the model predicts both verdicts from ONE recorded execution per doctest."),
@@ -31,7 +31,7 @@ MANIFEST = {
              "both front ends are assumed to call parse_doctestables with the same style/analysis (checked on every generated module)."),
     'technique': 'Lean 4 proof (on_error/mode independence of the run loop) + differential correspondence through real pytest and CLI processes',
 }
-RULE = ('random modules (1..6 callables; kinds pass, fail by output/exception, all/partly skipped, expected exception, force-disabled x10 '
+RULE = ('random modules (1..6 callables; kinds pass, fail by output/exception, fail BEFORE any part ran (compile-only error in the first executed part, malformed directive; some modules raise on import), the doctest ENDS ITSELF at run time (calls pytest.skip() / raises xdoctest.ExitTestException, first thing / after checked output / in the middle: passed in both front ends, later doctests still run), all/partly skipped, expected exception, force-disabled x10 '
         'spellings, comment only, near-miss, ELLIPSIS/NORMALIZE_WHITESPACE/IGNORE_WHITESPACE-sensitive; two-block callables, methods) '
         'for each of 3 styles x 8 option sets (flag spelled --xdoctest-options or --xdoc-options); per configuration: a failure-free '
         'batch and a failing batch through one pytest process each + single-module pytest runs + native runs of every module; '
@@ -39,7 +39,8 @@ RULE = ('random modules (1..6 callables; kinds pass, fail by output/exception, a
         'force-disabled doctest; distinct = distinct (module, configuration)')
 ASSUMPTIONS = ['pytest reports an item whose runtest raises as failed, pytest.skip() as skipped, and exits 1 iff an item failed (0 else, 5 if none collected)',
                'no "Could not clean traceback" escape (C09 hypothesis)',
-               'K-C15-a: doctests starting with `>>> # pytest.skip` are excluded (disabled under pytest only, documented in the code)']
+               'K-C15-a: doctests starting with `>>> # pytest.skip` are excluded (disabled under pytest only, documented in the code)',
+               'the run-loop model treats a run-time pytest.skip() like ExitTestException (result `exit`); the real Skipped is a BaseException and never reaches the expected-exception check, which differs only for a part whose want is a traceback block (not generated)']
 
 STYLES = ['google', 'freeform', 'auto']
 WITNESS = {'name': 'kc15a_witness', 'funcs': [
@@ -111,6 +112,12 @@ def _worker(args):
                 for e in r['expected']:
                     t = 'pytest=%s native=%s' % (e['pytest'], e['native'] or 'omitted')
                     out['tags'][t] = out['tags'].get(t, 0) + 1
+                for fn in r['spec']['funcs']:
+                    for b in fn['blocks']:
+                        t = 'kind:' + b[0]
+                        out['tags'][t] = out['tags'].get(t, 0) + 1
+                if r['spec'].get('import_error'):
+                    out['tags']['module raises on import'] = out['tags'].get('module raises on import', 0) + 1
                 if _nontrivial(r):
                     out['nontrivial'].add(hash((G.render(r['spec']), style, optstr, flag, kind)))
                 inp = {'spec': r['spec'], 'style': style, 'optstr': optstr, 'opts': opts, 'flag': flag}
